@@ -7,6 +7,7 @@ import (
 	"encoding/hex"
 	"encoding/json"
 	"fmt"
+	"io"
 	"os"
 	"os/exec"
 	"path/filepath"
@@ -183,14 +184,22 @@ func (r *Runner) staticShard(shard int, wg *sync.WaitGroup) {
 		cmd := exec.Command(r.Self, "worker", r.P.ID, "--tier", r.Tier, "--shard", strconv.Itoa(shard),
 			"--n", strconv.Itoa(r.NWorkers), "--journal", jpath, "--resume", strconv.Itoa(resume),
 			"--mem", strconv.FormatUint(r.MemGiB, 10))
-		cmd.Env = append(os.Environ(), "GOMAXPROCS=2")
+		cmd.Env = append(os.Environ(), "GOMAXPROCS=2", "VERIF_PROTO_FD=3")
 		var stderr bytes.Buffer
 		cmd.Stderr = &stderr
-		stdout, _ := cmd.StdoutPipe()
+		stdout, protoW, perr := os.Pipe() // the protocol travels on fd 3; the worker's standard output is discarded
+		if perr != nil {
+			r.harness("cannot create the worker pipe: %s", perr)
+			return
+		}
+		cmd.ExtraFiles = []*os.File{protoW}
 		if err := cmd.Start(); err != nil {
+			_ = stdout.Close()
+			_ = protoW.Close()
 			r.harness("cannot start worker: %s", err)
 			return
 		}
+		_ = protoW.Close()
 		done := make(chan bool, 1)
 		gotSum := false
 		go func() {
@@ -358,18 +367,26 @@ type bfsWorker struct {
 func (r *Runner) startBFSWorker(idx int) *bfsWorker {
 	w := &bfsWorker{jpath: filepath.Join(ScratchDir, fmt.Sprintf("%s-%d-b%d.journal", r.P.ID, os.Getpid(), idx))}
 	w.cmd = exec.Command(r.Self, "serve", r.P.ID, "--journal", w.jpath, "--mem", strconv.FormatUint(r.MemGiB, 10))
-	w.cmd.Env = append(os.Environ(), "GOMAXPROCS=2")
+	w.cmd.Env = append(os.Environ(), "GOMAXPROCS=2", "VERIF_PROTO_FD=3")
 	w.errb = &bytes.Buffer{}
 	w.cmd.Stderr = w.errb
 	stdin, _ := w.cmd.StdinPipe()
-	stdout, _ := w.cmd.StdoutPipe()
+	stdout, protoW, perr := os.Pipe() // responses travel on fd 3; the worker's standard output is discarded
+	if perr != nil {
+		r.harness("cannot create the bfs worker pipe: %s", perr)
+		return nil
+	}
+	w.cmd.ExtraFiles = []*os.File{protoW}
 	w.in = bufio.NewWriterSize(stdin, 1<<16)
 	w.inc = stdin
 	w.out = bufio.NewReaderSize(stdout, 1<<20)
 	if err := w.cmd.Start(); err != nil {
+		_ = stdout.Close()
+		_ = protoW.Close()
 		r.harness("cannot start bfs worker: %s", err)
 		return nil
 	}
+	_ = protoW.Close()
 	return w
 }
 
@@ -433,10 +450,21 @@ func (r *Runner) ExecIsolated(spec string) (res Result, ok bool, stderr string) 
 	f.Close()
 	cmd := exec.Command(r.Self, "exec", r.P.ID, "--spec-file", f.Name(), "--mem", strconv.FormatUint(r.MemGiB, 10))
 	var out, errb bytes.Buffer
-	cmd.Stdout, cmd.Stderr = &out, &errb
+	cmd.Stderr = &errb
+	cmd.Env = append(os.Environ(), "VERIF_PROTO_FD=3")
+	protoR, protoW, perr := os.Pipe() // the result travels on fd 3, whatever the case prints to standard output is dropped
+	if perr != nil {
+		return res, false, perr.Error()
+	}
+	cmd.ExtraFiles = []*os.File{protoW}
 	if err = cmd.Start(); err != nil {
+		_ = protoR.Close()
+		_ = protoW.Close()
 		return res, false, err.Error()
 	}
+	_ = protoW.Close()
+	copied := make(chan bool, 1)
+	go func() { _, _ = io.Copy(&out, protoR); _ = protoR.Close(); copied <- true }()
 	done := make(chan error, 1)
 	go func() { done <- cmd.Wait() }()
 	select {
@@ -447,6 +475,7 @@ func (r *Runner) ExecIsolated(spec string) (res Result, ok bool, stderr string) 
 		res.Fail("worker:hang", "no result within the deadline in an isolated process")
 		return res, true, errb.String()
 	}
+	<-copied
 	if jerr := json.Unmarshal(out.Bytes(), &res); jerr != nil {
 		res = Result{}
 		res.Fail("worker:fatal", "isolated process died: "+tail(errb.String(), 1500))
@@ -780,7 +809,13 @@ func Run(p *Prop, tier string, seed int, self string) int {
 			continue
 		}
 		if 0 < st.Attempts && st.Confirmed < st.Attempts {
+			// The same case failed in some fresh processes and passed in others: something the case does not control
+			// (Go map order, a random source, timing). It is recorded and printed but it is not a verdict: a violation
+			// must fail every time its replay file is run (S1).
 			flaky = append(flaky, fmt.Sprintf("%s (%d/%d)", st.Sig, st.Confirmed, st.Attempts))
+			fmt.Printf("FLAKY property=%s signature: %s (reproduced %d/%d in fresh processes; first case: %s)\n", p.ID, st.Sig,
+				st.Confirmed, st.Attempts, trunc(first(st.Specs), 300))
+			continue
 		}
 		if strings.HasPrefix(st.Sig, "harness:") {
 			r.harness("%s: %s", st.Sig, trunc(st.Detail, 1500))
